@@ -273,3 +273,71 @@ fn c16_swt_sortchecker_empty_batch() {
     kani::cover!(true, "witness: end of harness reached");
     std::mem::forget(offsets);
 }
+
+// ---- C05 (kernel): StagedOutputs::insert -- collisions INSIDE one batch fold the merge function -------------
+// The staging buffer used by the parallel insert path merges rows that hit the same key within one flush.
+// For a lattice merge (here: min on the value column, with the callback contract "return true and write `out`
+// iff the result differs from the FIRST argument, the row currently held") the live row for the key must hold
+// the merge of everything staged, whatever the order.  Concrete key (one hash bucket), symbolic values.
+fn staged_min_case(n_writes: usize) {
+    let mut so = StagedOutputs {
+        shard_data: ShardData::new(1),
+        n_keys: 1,
+        hash: Pooled::new(HashTable::new()),
+        rows: crate::row_buffer::verif_kani::kani_rowbuf(3, 0, Vec::with_capacity(300)),
+        n_stale: 0,
+        scratch: Pooled::new(Vec::with_capacity(300)),
+    };
+    let mut vals = [0u32; 3];
+    let mut best = u32::MAX;
+    let mut i = 0;
+    while i < n_writes {
+        let x: u32 = kani::any();
+        kani::assume(x < 1000);
+        vals[i] = x;
+        if x < best {
+            best = x;
+        }
+        let row = [Value::new(5), Value::new(x), Value::new(10 + i as u32)];
+        so.insert(&row, |cur, new, out| {
+            // min-merge with the documented contract: changed relative to `cur`
+            if new[1] < cur[1] {
+                out.push(cur[0]);
+                out.push(new[1]);
+                out.push(new[2]);
+                true
+            } else {
+                false
+            }
+        });
+        i += 1;
+    }
+    assert!(so.len() == 1, "one live row per key");
+    // the live row
+    let mut live = 0;
+    let mut found = u32::MAX;
+    for r in so.rows() {
+        if !r[0].is_stale() {
+            live += 1;
+            assert!(r[0] == Value::new(5));
+            found = r[1].rep();
+        }
+    }
+    assert!(live == 1);
+    assert!(found == best, "the staged value is the merge (min) of everything written to the key in this batch");
+    kani::cover!(n_writes >= 2 && vals[1] < vals[0], "witness: the better value arrives second");
+    kani::cover!(n_writes >= 2 && vals[1] > vals[0], "witness: the better value arrives first");
+    std::mem::forget(so);
+}
+
+#[kani::proof]
+#[kani::unwind(8)]
+fn c05_staged_outputs_min_two_writes() {
+    staged_min_case(2);
+}
+
+#[kani::proof]
+#[kani::unwind(8)]
+fn c05t_staged_outputs_min_three_writes() {
+    staged_min_case(3);
+}
